@@ -2,7 +2,7 @@ CONSTANTS
   FlowSet = {"flows/a.yaml", "flows/b.yaml"}
   Endpoints = {"configuration", "apply_flows"}
   Methods = {"PUT", "POST"}
-  MaxNth = 4
+  MaxNth = 2
   WithBadB64 = TRUE
   MxOld = {"m1"}
   GwOld = {"none"}
@@ -11,7 +11,7 @@ CONSTANTS
   Cat <- CatMC
   Txns = {1}
   RestoreWrongDirection = FALSE
-  PublishBeforeInit = TRUE
+  PublishBeforeInit = FALSE
   ContinueAfter405 = FALSE
   ApplyNoBackup = FALSE
   NoReloadAfterRestore = FALSE
